@@ -163,12 +163,41 @@ fn case(v: &Value, out: &mut Out, rng: &mut Rng) {
         _ = scn::init(&h, &key, &base_opts(which)).unwrap();
         before = stored(&store, &rk);
         store.clear_log();
+        // "opts_first": another change applied before, THROUGH THE SAME HANDLE (a refused change must leave nothing behind
+        // in the handle either); its result decides which fields count as named
+        let first = v.get("opts_first").map(build_opts);
+        let mut first_res = String::new();
         let r = scn::guard(|| {
             let mut repo = scn::open(&h, &key)?;
+            if let Some(f) = &first {
+                first_res = match repo.apply_config(f) {
+                    Ok(_) => "ok".to_string(),
+                    Err(_) => "err".to_string(),
+                };
+            }
             repo.apply_config(&opts)
         });
         result = r.class();
         msg = r.msg();
+        if first.is_some() {
+            let mut named = v["opts"].clone();
+            if first_res == "ok" {
+                for (k, val) in v["opts_first"].as_object().unwrap() {
+                    if named.get(k).is_none() {
+                        named[k] = val.clone();
+                    }
+                }
+            }
+            let wrote = store.log().iter().any(|o| o.kind == OpKind::Write && o.tpe == 0);
+            let after = stored(&store, &rk);
+            let (smoke_res, smoke_class) = if result == "ok" { smoke(&store, &key, rng) } else { ("skipped".into(), "skipped".into()) };
+            // (Untouched is judged for the pair: nothing may be written only if both were refused)
+            let res2 = if result != "ok" && first_res == "ok" { "ok" } else { result };
+            out.rec(&json!({"kind":"config","id":id,"phase":"change-after-change","opts":named,"first":first_res,"before":before,"after":after,"result":res2,
+                            "msg":msg.chars().take(200).collect::<String>(),"wrote":wrote,"smoke":if res2 == "ok" && result != "ok" { "ok".to_string() } else { smoke_res.chars().take(200).collect::<String>() },
+                            "smokeclass":smoke_class}));
+            return;
+        }
     }
     let wrote = store.log().iter().any(|o| o.kind == OpKind::Write && o.tpe == 0 && phase != "init");
     let after = stored(&store, &rk);
